@@ -46,6 +46,7 @@ type storeBehaviour struct {
 	MaxKB  int       `json:"maxkb"`
 	Names  []string  `json:"names"`
 	Events bool      `json:"events"`  // record after-events (C16); deliveries then go through message.StoreManager
+	Procs  bool      `json:"procs"`   // every mutating operation runs in a fresh child process (C10: restart between any two operations)
 	HoldMS int       `json:"hold_ms"` // every listener invocation takes this long (exposes overlapping dispatch)
 	Ops    []storeOp `json:"ops"`
 }
@@ -201,6 +202,9 @@ func runStoreBehaviourHooked(w *tr.Writer, b storeBehaviour, seed int64, scratch
 		return
 	}
 	curCap := b.Cap
+	if b.Procs && b.Store == "file" {
+		st = &procStore{Store: st, dir: dir, cap: b.Cap}
+	}
 	issued := make([][]string, len(b.Names))
 	oldDates := []string{}
 	w.Emit(tr.Ev{"a": "reset", "t": b.ID, "store": b.Store, "cap": b.Cap, "limit": b.MaxKB * 1024})
@@ -223,6 +227,11 @@ func runStoreBehaviourHooked(w *tr.Writer, b storeBehaviour, seed int64, scratch
 	}
 	for i, op := range b.Ops {
 		ev := tr.Ev{"a": op.Op, "t": b.ID, "i": i}
+		if _, isProc := st.(*procStore); isProc && (op.Op == "add" || op.Op == "seen" || op.Op == "remove" || op.Op == "purge") {
+			rs := tr.Ev{"a": "restart", "t": b.ID, "i": i}
+			snapInto(rs)
+			w.Emit(rs)
+		}
 		if before != nil {
 			before(i)
 		}
